@@ -57,7 +57,6 @@ inductive Pc where
   | apUnlocked (t : Tail)                              -- apply.after_intents_unlock
   | ckState (t : Tail)                                 -- checkpoint.before_state
   | ckWal (t : Tail)                                   -- checkpoint.before_wal                    [state]
-  | guardDrop (k h : Bytes) (committed : Bool) (res : Res)   -- guard_drop.before_intents
   | rmScan (k : Bytes)                                 -- remove.before_scan
   | rrScan (lo hi : Bound)                             -- remove_range.before_scan
   | rdLookup (k : Bytes)                               -- read.before_lookup
@@ -111,7 +110,7 @@ def bkSet (m : List (Bytes × Bytes)) (k h : Bytes) : List (Bytes × Bytes) := c
 /-- which lock a parked thread is about to take: 0 none, 1 intents, 2 state (exclusive),
     3 state (shared) -/
 def Pc.wants : Pc → Nat
-  | .putReg .. | .apIntents .. | .guardDrop .. | .orIntents .. => 1
+  | .putReg .. | .apIntents .. | .orIntents .. => 1
   | .apState .. | .ckState .. => 2
   | .rmScan .. | .rrScan .. | .rdLookup .. | .orState .. => 3
   | _ => 0
@@ -194,11 +193,6 @@ def stepPc (H : Bytes → Bytes) (tid : Tid) (sh : Shared) : Pc → StepOut
   | .ckWal t =>
     -- snapshot + prune: no effect on this model
     ⟨{ sh with lockState := none }, .idle, some t.res⟩
-  | .guardDrop k h committed res =>
-    let prot' := unprotect sh.prot h
-    let byKey' := if committed then sh.byKey
-      else if bkGet sh.byKey k = some h then bkDel sh.byKey k else sh.byKey
-    ⟨{ sh with prot := prot', byKey := byKey' }, .idle, some res⟩
   | .rmScan k =>
     match kLookup sh.idx.map k with
     | none => ⟨sh, .idle, some (.bool false)⟩
